@@ -91,7 +91,9 @@ func hooksC20() Hooks {
 		} else {
 			r.probe("backup_fresh")
 		}
-		q := r.obsQ(true, true)
+		// Stat sizes are compared through the files themselves (below): opening the target may
+		// legitimately re-encode a header-only index in the version of the current options
+		q := r.obsQ(true, false)
 		want := Observe(r.L, q)
 		src0 := snapDir(r.Dir)
 		var err error
